@@ -118,8 +118,31 @@ func (e *env) checkOffer(t *rapid.T, when string) types.Txs {
 		if pan != nil {
 			e.fail(t, "offer:block-does-not-execute", "%s: a block built from the %d offered transactions does not execute: %v", when, len(offer), pan)
 		}
+		// ... and it is a block the validator path of the same node accepts (what the proposer path does not look at -
+		// signatures of special transactions against the signer set in force - is checked there)
+		if cp, err := world.CopyBlock(blk); err == nil && !w.Check(cp) {
+			var kinds []string
+			for _, tx := range offer {
+				kinds = append(kinds, tx.TypeName())
+			}
+			e.fail(t, "offer:block-rejected-by-validator-path", "%s: a block built from the %d offered transactions %v is rejected by CheckBlock of the node that offers them", when, len(offer), kinds)
+		}
 	}
 	return offer
+}
+
+// signerInForce tells whether addr belongs to the node's committed upgrade signer set.
+func (e *env) signerInForce(addr common.Address) bool {
+	info := e.s.W.TxService.GetMultiSignersInfo(types.TxContractCreateType)
+	if info == nil {
+		return false
+	}
+	for _, s := range info.Signers {
+		if s.Addr == addr {
+			return true
+		}
+	}
+	return false
 }
 
 // checkComplete is the completeness oracle (only while no size cap binds): every admitted transaction that is
@@ -139,6 +162,9 @@ func (e *env) checkComplete(t *rapid.T, offer types.Txs, when string) {
 			tx, ok := m[n]
 			if !ok {
 				break
+			}
+			if up, isUp := tx.(*types.ContractUpgradeTx); isUp && !e.signerInForce(up.FromAddr) {
+				break // signed under a signer set that was rotated away: invalidated, must not be offered
 			}
 			c := costOf(tx)
 			if c.Cmp(bal) > 0 {
@@ -181,6 +207,12 @@ func (e *env) afterCommit(blk *types.Block) {
 	for from, m := range e.accepted {
 		cn := st.GetNonce(from)
 		for n, tx := range m {
+			if up, isUp := tx.(*types.ContractUpgradeTx); isUp && !e.signerInForce(up.FromAddr) {
+				// the committed block rotated the signer set: the recheck drops what was signed under the old one
+				delete(m, n)
+				e.removed++
+				continue
+			}
 			if n < cn {
 				if got, _ := e.s.W.BlockStore.GetTx(tx.Hash()); got == nil {
 					e.removed++ // a different transaction took this nonce: ours is invalidated
@@ -250,7 +282,7 @@ func runHistory(t *rapid.T, concurrent bool) {
 	default:
 		vstat.Label("pool_default")
 	}
-	e.s = chainsim.New(t, chainsim.Options{NumAccts: rapid.IntRange(2, 4).Draw(t, "naccts"), NumWallets: 2, AllRich: true, RealCache: true, MempoolCfg: mc})
+	e.s = chainsim.New(t, chainsim.Options{NumAccts: rapid.IntRange(2, 4).Draw(t, "naccts"), NumWallets: 2, AllRich: true, RealCache: true, MempoolCfg: mc, Wasm: true, MultiSign: true})
 	e.s.UnderpayRate = 4
 	defer e.s.Close()
 	// seed the confidential pool (one transaction per block: the generated pool may hold a single transaction),
@@ -286,7 +318,7 @@ func runHistory(t *rapid.T, concurrent bool) {
 
 	nops := rapid.IntRange(3, 30).Draw(t, "nops")
 	for i := 0; i < nops; i++ {
-		op := rapid.SampledFrom([]string{"next", "next", "next", "future", "future", "dup", "stale", "underfunded", "lowfee-a2u", "a2u", "uspend", "uspend", "reap", "commit-own", "commit-own", "commit-other"}).Draw(t, "op")
+		op := rapid.SampledFrom([]string{"next", "next", "next", "future", "future", "dup", "stale", "underfunded", "lowfee-a2u", "a2u", "uspend", "uspend", "reap", "commit-own", "commit-own", "commit-other", "upgrade", "upgrade", "rotate"}).Draw(t, "op")
 		w := e.s.W
 		submit := func(tx types.Tx, desc string) error {
 			err := w.Submit(tx)
@@ -366,6 +398,20 @@ func runHistory(t *rapid.T, concurrent bool) {
 			if err == nil {
 				submit(tx, "account->confidential with too low a fee")
 			}
+		case "upgrade":
+			// a contract upgrade signed by a member of the committed signer set (or, stale, by the genesis signer)
+			if g := e.s.GenUpgradeBy(t); g != nil {
+				if submit(g.Tx, g.Desc) == nil {
+					vstat.Label("upgrade_admitted")
+				}
+			}
+		case "rotate":
+			// a validator-signed rotation of the upgrade signer set, submitted here
+			if g := e.s.GenMultiSign(t); g != nil {
+				if submit(g.Tx, g.Desc) == nil {
+					vstat.Label("rotation_admitted")
+				}
+			}
 		case "a2u":
 			if g := e.s.GenA2U(t); g != nil {
 				submit(g.Tx, g.Desc)
@@ -392,6 +438,9 @@ func runHistory(t *rapid.T, concurrent bool) {
 			// the cap bounds the ordinary list; special and pure-confidential lists have their own caps
 			ordinary := 0
 			for _, tx := range got {
+				if _, special := tx.(*types.MultiSignAccountTx); special {
+					continue
+				}
 				if _, _, ok := senderOf(tx); ok {
 					ordinary++
 				}
@@ -430,6 +479,16 @@ func runHistory(t *rapid.T, concurrent bool) {
 				n := e.other.W.App.GetNonce(from.Addr)
 				err := e.other.W.Submit(world.Transfer(from, n, e.s.Sinks()[j%2], amt))
 				e.logf("%-12s other node: transfer from %s nonce %d => %v", op, from.Addr.Hex()[:10], n, err)
+			}
+			if rapid.IntRange(0, 2).Draw(t, "otherrotates") == 0 {
+				// the signer set is rotated by a transaction this node never saw: what it holds pending was signed under the old set
+				if g := e.other.GenMultiSign(t); g != nil {
+					err := e.other.W.Submit(g.Tx)
+					e.logf("%-12s other node: %s => %v", op, g.Desc, err)
+					if err == nil {
+						vstat.Label("rotation_committed_elsewhere")
+					}
+				}
 			}
 			if rapid.Bool().Draw(t, "otheruspend") {
 				if g := e.other.GenUSpend(t, nil); g != nil {
